@@ -117,7 +117,7 @@ def special_observers(kind, p):
             r1, r2, h, p1, p2 = p["dimension"]
             radii, phis = [r1, r2], [np.deg2rad(p1), np.deg2rad(p2), np.deg2rad((p1 + p2) / 2), np.deg2rad(p1) + np.pi, 0.0]
             r0 = r2
-        for r in [0.0, 0.05 * r0, r0 / 2] + [v for rr in radii for v in ulps(rr, (-1, 0, 1))] + [2 * r0]:
+        for r in [0.0, 5e-324, 1e-310, 0.05 * r0, r0 / 2] + [v for rr in radii for v in ulps(rr, (-1, 0, 1))] + [2 * r0]:
             for ph in phis:
                 for z in ulps(h / 2, (-1, 0, 1)) + [0.0, -h / 2, h]:
                     pts.append((r * np.cos(ph), r * np.sin(ph), z))
@@ -139,7 +139,7 @@ def special_observers(kind, p):
         # vertices themselves are documented singular points: excluded
     elif kind == "Circle":
         r0 = p["diameter"] / 2
-        for r in [0.0, 0.05 * r0] + ulps(r0, (-2, -1, 1, 2)) + [r0 / 2, 2 * r0] + [r0 * f for f in far]:
+        for r in [0.0, 5e-324, 1e-310, 1e-300, 0.05 * r0] + ulps(r0, (-2, -1, 1, 2)) + [r0 / 2, 2 * r0] + [r0 * f for f in far]:
             for z in (0.0, 1e-300, r0 * 1e-16, r0, -r0 * 1e3):
                 if abs(r - r0) == 0 and z == 0:
                     continue  # the wire itself: checked separately (must be finite as well: the wrapper returns 0 there)
@@ -194,6 +194,7 @@ def configs():
                 ("Cylinder", dict(dimension=(2, 2), exc=e)), ("Cylinder", dict(dimension=(1e-3, 5), exc=e)),
                 ("CylinderSegment", dict(dimension=(1, 2, 2, 0, 90), exc=e)), ("CylinderSegment", dict(dimension=(0, 1, 1, -30, 330), exc=e)),
                 ("CylinderSegment", dict(dimension=(0.5, 1, 2, 0, 360), exc=e)), ("CylinderSegment", dict(dimension=(1, 1, 2, 10, 10), exc=e)),
+                ("CylinderSegment", dict(dimension=(0, 2, 1, 90, 180), exc=e)), ("CylinderSegment", dict(dimension=(1, 2, 1, 270, 450), exc=e)),
                 ("Sphere", dict(diameter=1.5, exc=e)), ("Sphere", dict(diameter=0.0, exc=e)),
                 ("Triangle", dict(vertices=tet[:3], exc=e)), ("Tetrahedron", dict(vertices=tet, exc=e)), ("TriangularMesh", dict(vertices=tet, exc=e)),
                 ("Circle", dict(diameter=2.0, exc=e)), ("Circle", dict(diameter=0.0, exc=e)),
